@@ -11,8 +11,10 @@ TRUSTED = [
     "the specification oracle in lean/Driver/C08.lean (textbook multiset / sequence / first-deviation / consumed-unit "
     "semantics, written without the model) judges the implementation's own observations",
     "the failure-message extractor translate/extract_mockmsgs.py (first lines of MockFailure.cpp), regenerating Gen/MockMessages.lean",
-    "parameter equality is taken as same type and same value: the mixed-integer branches of MockNamedValue::equals are "
-    "property C09's subject and the generator never mixes integer types under one parameter name",
+    "parameter values: the matching model compares the normal form paramKey (all six integer types = the integer they "
+    "denote, C09's denote?); param_equal_iff_same_integer (Props/C08.lean, from C09's equals_int_iff over the regenerated "
+    "Gen/MockEquals.equalsGen) proves that this is MockNamedValue::equals for integers; the oracle compares the decimal "
+    "integers of the scenario text itself; expectation and actual call use different integer types routinely",
 ]
 ASSUMPTIONS = [
     "call counters and call order numbers do not wrap (unsigned int in the code, Nat in the model)",
@@ -20,7 +22,8 @@ ASSUMPTIONS = [
     "an expectation without onObject accepts a call on any object (documented behaviour); such an expectation and one "
     "with the same parameters on a specific object count as ambiguous",
     "output buffers of the caller are at least as large as the expectation's data (8 bytes here)",
-    "custom parameter types (comparators/copiers), doubles, long/long long values and tracing are not generated",
+    "custom parameter types (comparators/copiers), doubles and tracing are not generated; integer values stay inside the "
+    "range of the type they are written with (LP64)",
 ]
 RULE = ("scenarios = 0-8 expectations over <=3 function names, <=3 parameter names, <=2 output parameters, counts 0-4 "
         "(expectOneCall / expectNCalls / expectNoCall), typed values from a small pool so that identical and conflicting "
@@ -32,17 +35,34 @@ RULE = ("scenarios = 0-8 expectations over <=3 function names, <=3 parameter nam
         "parameters - identical classes and conflicting siblings -, counts > 1, calls with extra parameters / extra output "
         "parameters, calls lacking a required parameter, duplicated and dropped calls), ambig (ambiguous sets, repeated "
         "parameter names, late strictOrder: model comparison only unless the oracle finds them inside the hypothesis), "
-        "malformed; non-trivial = at least one expectation and one call; distinct = distinct op sequences")
+        "malformed; a dedicated family of small cases walks through every ordered pair of the six integer types with values "
+        "from the boundary lattice that are equal, or congruent modulo 2^32 / 2^64 but different as integers; non-trivial = at least one expectation and one call; distinct = distinct op sequences")
 
 FUNCS = ["f0", "f1", "f2"]
 PNAMES = ["p0", "p1", "p2"]
 ONAMES = ["o0", "o1"]
-# one integer flavour per parameter name (mixed-integer equality is C09's subject)
+# Parameter values.  Integers are mathematical integers here (Python ints); every time one is written into a
+# scenario line it gets a RANDOM integer type that can hold it (int, unsigned, long, unsigned long, long long,
+# unsigned long long), so expectation and actual call routinely use different types for the same parameter.
+# The pools come from the C09 boundary lattice and contain values that are equal modulo 2^32 / 2^64 but different
+# as integers (5, 2^32+5, 5-2^32; -1, 2^32-1, 2^64-1; 2^31, -2^31; 2^63, -2^63; ...), negative vs huge unsigned.
+INT_TYPES = [("i", -2**31, 2**31 - 1), ("u", 0, 2**32 - 1), ("l", -2**63, 2**63 - 1), ("ul", 0, 2**64 - 1),
+             ("ll", -2**63, 2**63 - 1), ("ull", 0, 2**64 - 1)]
 VALUES = {
-    "p0": ["i:0", "i:1", "i:-1", "i:2", "s:-", "s:61"],
-    "p1": ["u:0", "u:1", "u:7", "u:4000000000", "p:0", "p:1"],
-    "p2": ["b:0", "b:1", "m:-", "m:00", "m:0001", "cp:1", "cp:2", "s:61", "s:6162"],
+    "p0": [0, 1, -1, 5, 2**32 + 5, 5 - 2**32, 2**32 - 1, 2**64 - 1, "s:-", "s:61"],
+    "p1": [0, 1, 7, 2**32, 2**32 + 1, 2**31, -2**31, 2**31 - 1, 2**63, -2**63, 2**63 - 1, 2**64 - 2**32 + 7, "p:0", "p:1"],
+    "p2": [2, -5, 2**32 - 5, 2**64 - 5, "b:0", "b:1", "m:-", "m:00", "m:0001", "cp:1", "cp:2", "s:61", "s:6162"],
 }
+
+
+def fmt_val(rng, v):
+    """a typed scenario value for the abstract value `v`"""
+    if isinstance(v, int):
+        t = rng.choice([t for t, lo, hi in INT_TYPES if lo <= v <= hi])
+        return "%s:%d" % (t, v)
+    return v
+
+
 OUTBYTES = ["-", "01", "0102", "a1a2a3a4", "0102030405060708"]
 RETS = ["i:0", "i:7", "i:-3", "u:9", "s:6869", "s:-", "p:3", "cp:4", "b:1", "b:0"]
 OBJS = ["1", "2"]
@@ -69,7 +89,7 @@ class E:
     def line(self, rng):
         segs = []
         if self.count != "no":
-            segs += ["p:%s:%s" % (n, v) for n, v in self.ins]
+            segs += ["p:%s:%s" % (n, fmt_val(rng, v)) for n, v in self.ins]
             segs += ["out:%s:%s" % (n, h) for n, h in self.outs]
             if self.obj is not None:
                 segs.append("o:" + self.obj)
@@ -179,7 +199,7 @@ class C:
         self.r = False
 
     def line(self, rng):
-        segs = ["p:%s:%s" % (n, v) for n, v in self.ins] + ["out:%s" % n for n in self.outs]
+        segs = ["p:%s:%s" % (n, fmt_val(rng, v)) for n, v in self.ins] + ["out:%s" % n for n in self.outs]
         if self.obj is not None:
             segs.append("o:" + self.obj)
         rng.shuffle(segs)
@@ -195,7 +215,7 @@ def call_of(e, rng):
     if e.iop and rng.random() < 0.7:
         left = [n for n in PNAMES + ["q9"] if n not in dict(ins)]
         for n in rng.sample(left, rng.randint(0, len(left))):
-            ins.append((n, rng.choice(VALUES.get(n, ["i:5", "s:61"]))))
+            ins.append((n, rng.choice(VALUES.get(n, [5, 2**32 + 5, "s:61"]))))
         if rng.random() < 0.2:
             outs += [n for n in rng.sample(ONAMES, 1) if n not in outs]
     if obj is None and rng.random() < 0.08:
@@ -204,7 +224,7 @@ def call_of(e, rng):
 
 
 def mutate(rng, calls, scopes, ambiguous=False, iop=False):
-    kinds = ["drop", "dup", "value", "rename", "add", "remove", "object", "out", "unknown", "swap"]
+    kinds = ["drop", "dup", "value", "value", "rename", "add", "remove", "object", "out", "unknown", "swap"]
     if iop:
         kinds += ["remove", "remove", "remove", "dup", "add"]     # calls without a required parameter are routine
     kind = rng.choice(kinds)
@@ -224,20 +244,20 @@ def mutate(rng, calls, scopes, ambiguous=False, iop=False):
     elif kind == "value" and c.ins:
         k = rng.randrange(len(c.ins))
         n = c.ins[k][0]
-        c.ins[k] = (n, rng.choice(VALUES.get(n, ["i:5"])))
+        c.ins[k] = (n, rng.choice(VALUES.get(n, [5, 2**32 + 5])))
     elif kind == "rename" and c.ins:
         k = rng.randrange(len(c.ins))
         left = [n for n in PNAMES + ["q9"] if n not in dict(c.ins)]
         if left:
             n = rng.choice(left)
-            c.ins[k] = (n, rng.choice(VALUES.get(n, ["i:5"])))
+            c.ins[k] = (n, rng.choice(VALUES.get(n, [5, 2**32 + 5])))
     elif kind == "add":
         left = [n for n in PNAMES + ["q9"] if n not in dict(c.ins)]
         if ambiguous and c.ins and rng.random() < 0.3:
             left = [c.ins[0][0]]                              # repeated parameter name in a call
         if left:
             n = rng.choice(left)
-            c.ins.insert(rng.randint(0, len(c.ins)), (n, rng.choice(VALUES.get(n, ["i:5"]))))
+            c.ins.insert(rng.randint(0, len(c.ins)), (n, rng.choice(VALUES.get(n, [5, 2**32 + 5]))))
     elif kind == "remove" and c.ins:
         c.ins.pop(rng.randrange(len(c.ins)))
     elif kind == "object":
@@ -373,6 +393,40 @@ def gen_scopes_case(rng):
     return ops + tail
 
 
+LATTICE = sorted({0, 1, 2, 5, 7, -1, -5, 2**31 - 1, 2**31, -2**31, -2**31 - 1, 2**32 - 1, 2**32, 2**32 + 5, 2**33 + 5,
+                  2**32 - 5, 5 - 2**32, -2**32, 2**63 - 1, 2**63, 2**63 + 5, -2**63, 2**64 - 1, 2**64 - 5, 2**64 - 2**32 + 5})
+
+
+def gen_int_case(rng):
+    """one expectation, one call, one integer parameter: every ordered pair of the six integer types, with values
+    that are equal, or congruent modulo 2^32 / 2^64 but different as integers (wrap-around, sign reinterpretation).
+    The call must be accepted iff both denote the same integer."""
+    t1, lo1, hi1 = rng.choice(INT_TYPES)
+    t2, lo2, hi2 = rng.choice(INT_TYPES)
+    x = rng.choice([v for v in LATTICE if lo1 <= v <= hi1])
+    near = [x + 2**32, x - 2**32, x + 2**64, x - 2**64, x % 2**32, x % 2**64, x % 2**32 - 2**32, x % 2**64 - 2**64,
+            x + 2**33, -x]
+    near = [v for v in near if lo2 <= v <= hi2 and v != x]
+    r = rng.random()
+    if r < 0.3 and lo2 <= x <= hi2:
+        y = x
+    elif near and r < 0.9:
+        y = rng.choice(near)
+    else:
+        y = rng.choice([v for v in LATTICE if lo2 <= v <= hi2])
+    fn, pn = rng.choice(FUNCS), rng.choice(PNAMES)
+    ops = ["expect - %s %s p:%s:%s:%d ret:i:1" % (rng.choice(["one", "2"]), fn, pn, t1, x)]
+    if rng.random() < 0.3:
+        z = rng.choice([v for v in LATTICE if v != x and v != y])
+        t3 = rng.choice([t for t, lo, hi in INT_TYPES if lo <= z <= hi])
+        ops.insert(rng.randint(0, 1), "expect - one %s p:%s:%s:%d ret:i:2" % (fn, pn, t3, z))
+    ops.append("call - %s p:%s:%s:%d r" % (fn, pn, t2, y))
+    if rng.random() < 0.3:
+        t4 = rng.choice([t for t, lo, hi in INT_TYPES if lo <= x <= hi])
+        ops.append("call - %s p:%s:%s:%d r" % (fn, pn, t4, x))
+    return ops + ["check -"]
+
+
 def gen_malformed(rng):
     ops = gen_case(rng, "plain")
     junk = ["call", "call -", "expect - x f0", "expect - no f0 p:p0:i:1", "call - f0 r p:p0:i:1", "call - f0 p:p0:z:1",
@@ -387,7 +441,10 @@ def generate(rng, tier):
     n = 1400 if tier == "quick" else 30000
     out = []
     for _ in range(n):
-        out.append(("plain", gen_scopes_case(rng) if rng.random() < 0.12 else gen_case(rng, "plain")))
+        x = rng.random()
+        out.append(("plain", gen_scopes_case(rng) if x < 0.12 else gen_int_case(rng) if x < 0.2 else gen_case(rng, "plain")))
+    for _ in range(n // 2):
+        out.append(("plain", gen_int_case(rng)))      # small: every ordered pair of integer types, several times
     for _ in range(n // 2):
         out.append(("iop", gen_case(rng, "iop")))
     for _ in range(n // 3):
@@ -446,6 +503,14 @@ def observe(r, rep):
         rep.count("feature.two_or_more_named_scopes")
         if any(l == "fail Mock Failure: Expected call WAS NOT fulfilled." for l in r.impl):
             rep.count("feature.unfulfilled_with_named_scopes")
+    itypes = {}
+    for l in r.ops:
+        for w in l.split()[3:]:
+            f = w.split(":")
+            if f[0] == "p" and len(f) == 4 and f[2] in ("i", "u", "l", "ul", "ll", "ull"):
+                itypes.setdefault(f[1], set()).add(f[2])
+    if any(len(t) >= 2 for t in itypes.values()):
+        rep.count("feature.mixed_integer_types")
     if any(l.startswith("strict ") for l in r.ops):
         rep.count("feature.strict")
     if any(l.split()[1] != "-" for l in r.ops if len(l.split()) > 1 and l.split()[0] in ("expect", "call")):
@@ -484,6 +549,7 @@ LEVEL_NOTE = ("Trusted: Lean kernel; the hand-written model (validated against t
               "global mock, name \"\"); scoped function names and the interplay of several scopes are covered by "
               "checkExpectations_over_scopes / expectedCallsLeft_over_scopes and otherwise by correspondence. Diagnosis and "
               "output-byte theorems are for the plain class; for ignoreOtherParameters the diagnosis is judged by the oracle "
-              "only. Not carried by theorems: ambiguous sets, enable/disable, mixed-integer parameter equality (C09).")
+              "only. Not carried by theorems: ambiguous sets, enable/disable; equality of non-integer parameter values (strings, "
+              "pointers, buffers) is C09's subject and enters here only through the correspondence.")
 TECHNIQUE = ("Lean 4 invariant / refinement-to-multiset proofs over an executable model + differential correspondence harness "
              "+ independent specification oracle + regenerated failure-message table")
